@@ -678,8 +678,8 @@ theorem KT.step {s : FleetStore} (h : KT s) (op : Op) (hok : OpOK s op) : KT (s.
   unfold FleetStore.step
   have h' := h.clear
   cases op with
-  | reservePut p => exact h'.lift _ (BufStore.reservePut_core p h'.core) (reservePut_frame _ p)
-  | reserveGet p => exact h'.lift _ (BufStore.reserveGet_core p h'.core) (reserveGet_frame _ p)
+  | reservePut p => exact h'.lift _ (BufStore.reservePutP_core p 0 h'.core) (reservePutP_frame _ p 0)
+  | reserveGet p => exact h'.lift _ (BufStore.reserveGetP_core p 0 h'.core) (reserveGetP_frame _ p 0)
   | reservePutP p pr => exact h'.lift _ (BufStore.reservePutP_core p pr h'.core) (reservePutP_frame _ p pr)
   | reserveGetP p pr => exact h'.lift _ (BufStore.reserveGetP_core p pr h'.core) (reserveGetP_frame _ p pr)
   | put p t x => exact h'.put p t x hok
